@@ -68,6 +68,21 @@ func (b *Block) ComputeMerkleRoot() util.Uint256 {
 	return hash.CalcMerkleRoot(hashes)
 }
 
+// HasDuplicateTransactions tells whether some transaction is contained in the
+// block more than once. The Merkle root does not protect from that: an odd leaf
+// is paired with itself, so the root of [a, b, c] is the root of [a, b, c, c].
+func (b *Block) HasDuplicateTransactions() bool {
+	seen := make(map[util.Uint256]struct{}, len(b.Transactions))
+	for _, tx := range b.Transactions {
+		h := tx.Hash()
+		if _, ok := seen[h]; ok {
+			return true
+		}
+		seen[h] = struct{}{}
+	}
+	return false
+}
+
 // RebuildMerkleRoot rebuilds the merkleroot of the block.
 func (b *Block) RebuildMerkleRoot() {
 	b.MerkleRoot = b.ComputeMerkleRoot()
